@@ -554,6 +554,13 @@ func c11(c *Ctx) {
 				}
 				got := dynamicpb.NewMessage(md)
 				_ = proto.Unmarshal(unb64(hs[0].Str("req")), got)
+				// whatever was accepted, the handler must hold a VALID message: one the reference encoder can write
+				// (a Timestamp outside 0001..9999, a Duration out of range, invalid UTF-8 are not values)
+				if _, verr := protojson.Marshal(got); verr != nil {
+					rp["handler_saw"] = fmt.Sprint(got)
+					rp["reference_encoder"] = verr.Error()
+					c.R.Violate(caseID, "dispatched-invalid-message", "", rp)
+				}
 				isJSON := mu.CT == "" || strings.HasPrefix(mu.CT, "application/json") || mu.CT == "text/plain"
 				if isJSON {
 					if bt, perr := jsonmap.Parse(mu.Body); perr == nil {
